@@ -199,6 +199,55 @@ def interleaved_history(ttl_q, k, what, which):
         sim.close()
 
 
+def cancel_history(ttl_q, k, which):
+    """k overdue requests; the operation whose sweep reports them is CANCELLED while the notification of request `which`
+    is suspended in the application's hook (the session ends: the task is cancelled).  The next operation sweeps again:
+    in the end every one of the k requests has been reported exactly once.  No model line (the turn-level model has no
+    cancellation): predicate only."""
+    import asyncio
+    sim = CorrSim(ttl_resp_q=ttl_q)
+    fail = None
+    try:
+        for i in range(1, k + 1):
+            sim.op_put(100 + i, sim.submit(i, 50 + i, 0))
+        sim.clock.q = 100 + k + ttl_q + 5
+        state = {'n': 0, 'task': None}
+        blocker = sim.loop.create_future()
+
+        async def gate(_m):
+            state['n'] += 1
+            if state['n'] == which:
+                await blocker               # never released: the task is cancelled here
+        sim.gate = gate
+
+        async def scenario():
+            task = sim.loop.create_task(sim.corr.put(sim.request('enq', 5000)))
+            for _ in range(50):
+                await asyncio.sleep(0)
+            task.cancel()
+            try:
+                await task
+            except BaseException:      # noqa
+                pass
+            sim.gate = None
+            sim.clock.q += 50
+            await sim.corr.put(sim.request('enq', 5001))
+        sim.run(scenario())
+        out = sim.take_events()
+        for i in range(1, k + 1):
+            n_to = out.count('E=submit:%d:' % i)
+            if n_to != 1 and fail is None:
+                fail = ('request %d of %d overdue ones was reported as timed out %d times: the sweep that reported them was cancelled '
+                        'during the notification of the %s one it reported, the next operation swept again' % (
+                            i, k, n_to, {1: 'first', 2: 'second', 3: 'third'}.get(which, '%dth' % which)))
+    except Exception as e:      # noqa
+        fail = 'the scenario raised %r' % (e,)
+    finally:
+        sim.close()
+    line = '# cancelled-sweep %d %d %d' % (ttl_q, k, which)
+    return [Case(line, line, ('cancelled-sweep', min(k, 3), which), fail, {'op': 'cancelled-sweep', 'ttl': ttl_q, 'k': k, 'which': which})]
+
+
 def sched_history(rng, ttl_q, fixed=None):
     """correlator operations interleaved at their suspension points under a schedule drawn by the harness: every
     send_error hook call blocks until the schedule resumes its operation; meanwhile other operations (put of a probe or
@@ -211,9 +260,11 @@ def sched_history(rng, ttl_q, fixed=None):
     try:
         k = rng.randrange(1, 6)
         t = 100
+        put_at = {}
         for i in range(1, k + 1):
             t += rng.choice((1, 1, ttl_q // 2))
             ln, out = sim.op_put(t, sim.submit(i, 50 + i, 0))
+            put_at[i] = t
             cases.append(Case(ln, out, None))
         clock = t + rng.choice((1, ttl_q // 2, ttl_q + 5, 2 * ttl_q))
         n_ops = rng.randrange(1, 5)
@@ -281,6 +332,7 @@ def sched_history(rng, ttl_q, fixed=None):
                     oi = nxt
                     nxt += 1
                     state['cur'] = oi
+                    state.setdefault('started_at', {})[oi] = clock
                     evs.append('%s@%d@%s' % (ops[oi][0], clock, sim.show(ops[oi][1])))
                     tasks[oi] = loop.create_task(run_op(oi))
                 else:
@@ -311,6 +363,20 @@ def sched_history(rng, ttl_q, fixed=None):
             oi, what_ = sorted(state['raised'].items())[0]
             fail = 'correlator operation %d (%s) raised %s under the schedule %s' % (
                 oi, 'put' if ops[oi][0] == 'P' else 'get', what_, ' '.join(e.split('@')[0] + '@' + e.split('@')[1] for e in evs))
+        # a response that arrives within the time-to-live of its request finds it: the lookup is made when the response
+        # arrives, whatever the sweep of that very operation has to wait for afterwards
+        first_g = {}
+        for oi, (kind, msg) in enumerate(ops):
+            if kind == 'G' and msg.sequence_num in put_at:
+                first_g.setdefault(msg.sequence_num, oi)
+        for i, oi in first_g.items():
+            arrived = state.get('started_at', {}).get(oi)
+            if fail is None and arrived is not None and arrived - put_at[i] <= ttl_q and state['results'].get(oi) is None \
+                    and oi not in state.get('raised', {}):
+                # (no earlier operation may have swept it: it was not overdue yet when any of them read the clock)
+                fail = ('the response for request %d arrived %d quanta after the request was stored (time-to-live %d) and was not '
+                        'matched, under the schedule %s' % (i, arrived - put_at[i], ttl_q,
+                                                           ' '.join(e.split('@')[0] + '@' + e.split('@')[1] for e in evs)))
         for i in range(1, k + 1):
             n_to = ev_str.count('E=submit:%d:' % i)
             n_m = sum(1 for oi, (kind, msg) in enumerate(ops) if kind == 'G' and msg.sequence_num == i and state['results'].get(oi) is not None)
@@ -337,6 +403,9 @@ def generate(rng, tier):
             for what in ('sweep', 'self', 'other', 'unknown'):
                 for which in ((1, 2) if what == 'other' and k > 2 else (1,)):
                     yield from interleaved_history(ttl, k, what, which)
+            for which in range(1, k + 1):
+                if which <= 3:
+                    yield from cancel_history(ttl, k, which)
     for _ in range(1200 if thorough else 300):
         ttl = rng.choice((Q, Q * 5 // 2, 15 * Q))
         n = rng.randrange(1, 13)
@@ -353,6 +422,8 @@ def replay(inp):
         return c01s.case_of(dict(inp['sc']), 'c14')
     if inp.get('op') == 'sched':
         return Case('\n'.join(['c.new %d 102400' % inp['ttl']] + inp.get('lines', [])), '', None, None, inp)
+    if inp.get('op') == 'cancelled-sweep':
+        return cancel_history(inp['ttl'], inp['k'], inp['which'])[-1]
     if inp.get('op') == 'interleaved':
         return interleaved_history(inp['ttl'], inp['k'], inp['what'], inp['which'])[-1]
     if inp.get('op') == 'nested':
